@@ -207,6 +207,75 @@ func (s *Solver) Check(sc *Script, timeoutMs int) Answer {
 	return ans
 }
 
+// CheckRaw runs a hand-written script (declarations + assertions, no check-sat).
+func (s *Solver) CheckRaw(text string, getNames []string, timeoutMs int) Answer {
+	t0 := time.Now()
+	defer func() { s.Queries++; s.Time += time.Since(t0) }()
+	if s.cmd == nil {
+		if err := s.start(timeoutMs); err != nil {
+			return Answer{Res: Unknown, Err: err.Error()}
+		}
+	}
+	var sb strings.Builder
+	sb.WriteString("(reset)\n")
+	switch s.Backend {
+	case "z3", "z3new":
+		fmt.Fprintf(&sb, "(set-option :timeout %d)\n", timeoutMs)
+	case "cvc5":
+		sb.WriteString("(set-logic ALL)\n")
+	}
+	sb.WriteString(text)
+	sb.WriteString("(check-sat)\n(echo \"@@END\")\n")
+	if s.DumpDir != "" {
+		n := atomic.AddInt64(&dumpCtr, 1)
+		writeFile(fmt.Sprintf("%s/r%06d.smt2", s.DumpDir, n), sb.String())
+	}
+	if _, err := io.WriteString(s.in, sb.String()); err != nil {
+		s.Close()
+		return Answer{Res: Unknown, Err: "write: " + err.Error()}
+	}
+	lines, ok := s.readUntil("@@END", time.Duration(timeoutMs+5000)*time.Millisecond)
+	ans := Answer{Res: Unknown}
+	if !ok {
+		ans.Err = "solver died or timed out"
+		return ans
+	}
+	verdict := ""
+	for _, l := range lines {
+		if strings.Contains(l, "(error") {
+			ans.Err = l
+			return ans
+		}
+		switch strings.TrimSpace(l) {
+		case "sat", "unsat", "unknown", "timeout":
+			verdict = strings.TrimSpace(l)
+		}
+	}
+	switch verdict {
+	case "unsat":
+		ans.Res = Unsat
+	case "sat":
+		ans.Res = Sat
+		if len(getNames) > 0 {
+			req := "(get-value (" + strings.Join(getNames, " ") + "))\n(echo \"@@END\")\n"
+			io.WriteString(s.in, req)
+			ml, ok := s.readUntil("@@END", 30*time.Second)
+			if ok {
+				if vals, err := parseValues(strings.Join(ml, "\n"), len(getNames)); err == nil {
+					ans.Model = map[string]string{}
+					for k, v := range vals {
+						ans.Model[getNames[k]] = v
+					}
+				} else {
+					ans.Err = err.Error()
+				}
+			}
+		}
+	}
+	ans.Millis = time.Since(t0).Milliseconds()
+	return ans
+}
+
 // parseValues parses "((e1 v1) (e2 v2) ...)" and returns the value texts in order.
 func parseValues(s string, n int) ([]string, error) {
 	toks := tokenize(s)
